@@ -73,9 +73,11 @@ CHECKS["C06"] = dict(
 CHECKS["C07"] = dict(
     category="exploration", design_ref="DESIGN.md 4 (C07)",
     text="Every directed graph on <= 3 nodes (quick) / <= 4 nodes (thorough, 65 536 graphs) and random graphs on 5-12 "
-         "nodes are realised as function-block instance graphs, structure graphs, mixed alias/structure graphs and "
-         "array-element graphs with shuffled declaration order; a reference DFS cycle test decides whether P0010/P0013 "
-         "must be present.",
+         "nodes and linear chains of up to 200 (400) declarations are realised as function-block instance graphs, "
+         "structure graphs, mixed alias/structure graphs, array-element graphs and heterogeneous graphs (every node "
+         "independently FB / structure / alias / array-of, every reference spelled plainly, with an initial value or "
+         "inside an inline array, VAR_EXTERNAL non-edges, names like standard function blocks) with shuffled "
+         "declaration order; a reference DFS cycle test decides whether P0010/P0013 must be present.",
     note="Only the presence of the recursion codes is judged. exhaustive=true is set in the evidence only when the "
          "whole <= 4-node space was run (thorough tier).",
     technique="exhaustive small-graph enumeration against a reference cycle detector, monitored at analyze()")
@@ -102,7 +104,7 @@ CHECKS["C09"] = dict(
 CHECKS["C10"] = dict(
     category="exploration", design_ref="DESIGN.md 4 (C10), 7",
     text="Every generated source the parser accepts and the repository's fixtures are rendered, re-parsed, compared by "
-         "normal form and rendered again (fixed point). The pinned renderer has 22 recorded defects that cannot be "
+         "normal form and rendered again (fixed point). The pinned renderer has 23 recorded defects that cannot be "
          "repaired without editing the stored expected outputs of the existing tests; 2/3 of the workload avoids the "
          "constructs involved (any failure there is a violation), the rest must fail only with a recorded signature.",
     note="Equality is judged on the normal form; the known-findings file lists, per defect, the generator atoms and the "
@@ -117,17 +119,19 @@ CHECKS["C05"] = dict(
          "is about' for every label of the planted rule faults (the planter registers the spellings); CLI line:col "
          "against the reference.",
     note="Column unit is not fixed by the property: bytes, characters or UTF-16 units are accepted; form feed as a line "
-         "end is not judged; OSCAT description bodies are exempt from text equality (blanked by design) but not from "
-         "tiling.",
+         "separates tokens but does not end a line; OSCAT description bodies are exempt from text equality (blanked "
+         "by design) but not from tiling. The CLI stage also compares the texts the coloured codespan output "
+         "underlines with the label texts seen in process (multi-file diagnostics, twins, repeated values).",
     technique="position oracles (tiling, reference line/col, registered spellings) over generated sources and planted faults")
 CHECKS["C11"] = dict(
     category="exploration", design_ref="DESIGN.md 4 (C11)",
     text="Trace monitor on the real `ironplcc lsp --stdio`: every didOpen/didChange must be followed (before a sentinel "
          "response) by exactly one publishDiagnostics for that URI with that version, whose content must be one of the "
          "answers freshly started servers give for the same contents (reference taken 3 times) and equal to what "
-         "`ironplcc check` reports for a directory with the same files. Histories over {didOpen, didChange} x 2 URIs x 5 "
-         "texts are enumerated (all 160 000 of length 4 in the thorough tier, a seeded sample of the 8 000 of length 3 "
-         "in the quick tier), plus random histories over generated documents.",
+         "`ironplcc check` reports for a directory with the same files. Histories over {didOpen, didChange} x 2 URIs x 9 "
+         "texts are enumerated (all of length 4 in the thorough tier, a seeded sample of 1 600 of length 3 in the quick "
+         "tier), with four version-numbering policies and five URI styles (percent-encoded blanks / non-ASCII, names "
+         "differing only in case), plus random and fixed histories with a third, unrelated document.",
     note="Fresh-server and CLI references are themselves executions of the system under test (differential / "
          "metamorphic oracle); a state whose reference is unstable is reported. P0030 carries no file and is ignored.",
     technique="JSON-RPC trace monitor with fresh-server and CLI differential references over enumerated histories")
@@ -135,7 +139,8 @@ CHECKS["C12"] = dict(
     category="exploration", design_ref="DESIGN.md 4 (C12)",
     text="Online trace specification over the stdio frames of the real server under seeded random message sequences "
          "(length <= 60) mixing valid traffic, empty and double content changes, unimplemented requests and "
-         "notifications, client responses, non-file URIs and hostile documents: exactly one response per request id by "
+         "notifications, client responses, cancellations of ids not yet used, parameters of the wrong shape, odd URIs "
+         "and hostile / long / deep / cut-off documents: exactly one response per request id by "
          "the shutdown response, none spurious, process alive until exit, status 0 afterwards.",
     note="'Eventually' is decided in bounded form (answered before the shutdown response; the server is single-threaded "
          "and in-order). Watchdog firings are inconclusive unless reproduced 3 times. TSan is not used: ironplc shares "
@@ -144,7 +149,9 @@ CHECKS["C12"] = dict(
 CHECKS["C13"] = dict(
     category="exploration", design_ref="DESIGN.md 4 (C13)",
     text="Every invocation of the real binary in the workload (generated valid / faulty file sets as files, permuted, "
-         "as a directory, with a duplicated argument; missing, dangling, empty inputs) is checked against the contract "
+         "as a directory, with a duplicated argument or another spelling of a path; missing, dangling, empty inputs; "
+         "sweeps over the number of diagnostics (1..1025) and over the byte alignment of a long offending token) is "
+         "checked against the contract "
          "exit 0 <=> OK <=> no coded diagnostic; directory vs file list equivalence; echo / tokenize exit status "
          "against the in-process parse / tokenize of each file.",
     note="Sets contain at most one faulty file so that the diagnostics compared between `check dir` and `check files` "
@@ -153,7 +160,8 @@ CHECKS["C13"] = dict(
 CHECKS["C14"] = dict(
     category="exploration", design_ref="DESIGN.md 4 (C14)",
     text="Metamorphic monitor across 5 encodings of the same generated text (non-ASCII in comments before code and in "
-         "strings, LF/CRLF) on `check` and `tokenize`; exhaustive byte sweep (256 values x 4 sites x 2 commands) and "
+         "strings, LF/CRLF, non-ASCII tails, OSCAT blocks) on `check` and `tokenize`, alone, in sets of mixed encodings "
+         "and as the library file of an LSP workspace folder; exhaustive byte sweep (256 values x 4 sites x 2 commands) and "
          "random binary files must give a verdict whose positions lie inside the reference-decoded text and never a "
          "crash.",
     note="Reference decoder = BOM sniff, strict UTF-8, else WHATWG windows-1252. valgrind memcheck on the release binary "
@@ -166,7 +174,8 @@ CHECKS["C15"] = dict(
          "decoded with the LSP relative encoding and compared with an independent lexical classifier written from "
          "Annex B.1: strictly increasing, each range exactly one lexeme, legend entry allowed for the class, every "
          "identifier and comment present, null for invalid text.",
-    note="Length/character accepted in characters or UTF-16 units; form feed not generated.",
+    note="Length/character accepted in characters or UTF-16 units; a form feed separates tokens and does not end a line; "
+         "OSCAT description bodies are modelled as blanks.",
     technique="decoded-answer oracle against an independent lexical classifier")
 
 NOT_YET = {}
